@@ -73,6 +73,8 @@ def canon_result(res):
         return tuple(canon_result(x) for x in res)
     if n == "Domain":
         return digest.d_domain(res)
+    if n == "Problem":
+        return digest.d_problem(res)
     if n == "TrajectoryTriplet":
         return (canon_result(res.previous_state), str(res.operator), canon_result(res.next_state))
     return ("obj", n)
@@ -172,7 +174,10 @@ def run_history(ctx, rng, mon, n_calls):
     wm = model.World(dom_m, w.objects)
     st0 = partial_state(rng, gen.random_state(rng, w))
     try:
-        prob = lib.parse_problem_text(sx.plain(w.problem_ast(st0)), dom)
+        from pathlib import Path as _P
+        goal = ["and"] + [list(a) for a in rng.sample(gen.ground_atoms(w, with_constants=False), min(2, len(gen.ground_atoms(w, with_constants=False))))]
+        problem_parser = lib.ProblemParser(_P(env.write_tmp(sx.plain(w.problem_ast(st0, goal=goal)), name=f"hist-problem-{rng.randrange(10**9)}.pddl")), dom)
+        prob = problem_parser.parse_problem()
     except BaseException:
         ctx.count("refused:problem")
         return None
@@ -184,7 +189,7 @@ def run_history(ctx, rng, mon, n_calls):
     from pddl_plus_parser.exporters import DomainExporter, ProblemExporter, TrajectoryExporter
     kinds = ["new_op", "new_op", "is_applicable", "apply", "apply", "apply_flag", "reapply", "reapply", "serialize", "copy", "two_ops",
              "print", "effects", "export_domain", "export_problem", "trajectory", "parse_other", "new_state", "replay", "replay",
-             "read_only_accessor"]
+             "read_only_accessor", "parse_problem_again"]
     for step in range(n_calls):
         k = rng.choice(kinds)
         if k == "new_op" or not ops:
@@ -230,6 +235,9 @@ def run_history(ctx, rng, mon, n_calls):
             if res is not None and len(states) < 14:
                 states.append(res)
                 mon.register(res, "State#returned")
+        elif k == "parse_problem_again":
+            # the same parser object asked again: an equal problem, and the one returned earlier keeps its value
+            h.call("parse_problem(same parser again)", lambda: problem_parser.parse_problem())
         elif k == "read_only_accessor":
             which = rng.choice(["typed_action_call", "str(operator)", "str(action)", "hash(precondition)", "precondition == itself"])
             if which == "typed_action_call":
